@@ -35,6 +35,7 @@ CONSTANTS Honest, Byz, Values, MaxRound, MaxRH, None,
           G_CommitPhase,       \* only a PRECOMMIT_VOTE certificate commits
           G_ProposerBound,     \* PRECOMMIT/COMMIT must come from the proposer adopted at PROPOSE_VOTE
           G_VoteRootHeight,    \* votes are counted only for the leader's current root height
+          G_AdoptLex,          \* a HighQC offered in an ELECTION vote replaces the lock only if it is higher by (rootHeight, round)
           TrackPM              \* model pacemaker messages / round jumps (liveness configs)
 
 VARIABLES rootH,      \* global root-chain height
@@ -159,10 +160,12 @@ OfferedLocks(n) ==
 
 \* HandleMessage(ELECTION_VOTE carrying HighQc), at any time: the lock is replaced by a higher
 \* certificate and b.Block / b.Results are overwritten with the (empty) payload of the vote
+\* the weakened rule: "a newer committee OR a later round" (rounds restart at 0 on a NEW_COMMITTEE reset while locks are kept)
+AdoptOK(cur, q) == IF cur = None THEN TRUE ELSE IF G_AdoptLex THEN Less(cur, q) ELSE (q.rh > cur.rh \/ q.rnd > cur.rnd)
 AdoptLock(n, q) ==
    /\ ph[n] # "DONE"
    /\ q \in OfferedLocks(n)
-   /\ IF lock[n] = None THEN TRUE ELSE Less(lock[n], q)
+   /\ AdoptOK(lock[n], q)
    /\ lock' = [lock EXCEPT ![n] = q]
    /\ blk' = [blk EXCEPT ![n] = None]
    /\ last' = [a |-> "AdoptLock", n |-> n, q |-> q]
